@@ -8,7 +8,9 @@ library calls with and without an explicit accountant, exceptions that propagate
 real vs oracle differing = the property fails on the code (violation, replayable); real vs runI differing =
 correspondence broken; runI vs runS differing on a well-bracketed program would contradict `scope_refines_stack`.
 """
+import gc
 import warnings
+import weakref
 
 from ..shim import dp, np
 from .. import leanio, seams
@@ -135,8 +137,8 @@ class Boom(Exception):
 # items: ["set", id] ["pop"] ["call", id|None, tool] ["load", id|None] ["peek"] ["raise"] ["block", id, items] ["try", items]
 # id = "n3" | "f0"
 
-def encode(items):
-    """prefix encoding understood by lean/Drivers/Scope.lean"""
+def encode(items, show_gc=False):
+    """prefix encoding understood by lean/Drivers/Scope.lean (show_gc: for messages only, `G` is not a model token)"""
     out = []
 
     def go(its):
@@ -152,6 +154,9 @@ def encode(items):
                 out.append("L" + (it[1] or "-"))
             elif k == "peek":
                 out.append("K")
+            elif k == "gc":
+                if show_gc:                 # garbage collection is not an event of the model
+                    out.append("G")
             elif k == "raise":
                 out.append("R")
                 return                      # whatever follows a raise in the same list is unreachable and not encoded
@@ -208,6 +213,8 @@ def run_oracle(items):
             k = it[0]
             if k in ("set", "call", "load", "block") and it[1] and it[1][0] == "f" and int(it[1][1:]) >= fresh[0]:
                 raise ValueError("program names a lazily created default that does not exist yet")
+            if k == "gc":
+                continue
             if k == "set":
                 stack[-1] = it[1]
             elif k == "pop":
@@ -257,62 +264,112 @@ def run_oracle(items):
 
 # ------------------------------------------------------------------ the real thing
 
-def run_real(items, kinds):
-    """execute on real BudgetAccountant (or subclass) objects; returns (events, flag, final)"""
+def _spec(k):
+    """program spec -> dict(kinds, anon, hold_fresh).  Old forms: a count (all plain) or a list of kinds."""
+    if isinstance(k, dict):
+        return {"kinds": list(k["kinds"]), "anon": list(k.get("anon", [])), "hold_fresh": bool(k.get("hold_fresh", True))}
+    return {"kinds": _kinds(k), "anon": [], "hold_fresh": True}
+
+
+def run_real(items, spec):
+    """execute on real BudgetAccountant (or subclass) objects; returns (events, flag, final).
+
+    Lifetime: the harness holds a STRONG reference only to the accountants the program itself would hold in a variable.
+    Anonymous accountants (spec["anon"]: created inline by `Cls().set_default()` / `with Cls():`) and — unless
+    spec["hold_fresh"] — the defaults the library creates lazily are held by weak reference only and recognised by a
+    tag written on the object, so that they live exactly as long as the library keeps them alive."""
     ev = []
-    kinds = _kinds(kinds)
+    spec = _spec(spec)
+    kinds, anon, hold_fresh = spec["kinds"], set(spec["anon"]), spec["hold_fresh"]
     with seams.fresh_default_accountant(), warnings.catch_warnings():
         warnings.simplefilter("ignore")
         classes = _make_classes()
-        named = [classes[k]() for k in kinds]
-        fresh = []
+        named = {}                      # index -> strong reference (held accountants only)
+        for i, k in enumerate(kinds):
+            if i not in anon:
+                named[i] = classes[k]()
+                named[i].__dict__["_verif_tag"] = "n%d" % i
+        weak = []                       # weak references to every tagged accountant the harness does not hold
+        strong_fresh = []
+        n_fresh = [0]
         n_call = [0]
 
-        def ident(obj):
-            if obj is None:
+        def ident(o):
+            if o is None:
                 return "-"
-            for i, a in enumerate(named):
-                if a is obj:
+            for i, a in named.items():
+                if a is o:
                     return "n%d" % i
-            for i, a in enumerate(fresh):
-                if a is obj:
-                    return "f%d" % i
-            if isinstance(obj, BA):
-                fresh.append(obj)            # a lazily created default: identified by creation order
-                return "f%d" % (len(fresh) - 1)
-            return "?" + type(obj).__name__
+            if isinstance(o, BA):
+                tag = o.__dict__.get("_verif_tag")
+                if tag is None:             # a lazily created default: identified by creation order
+                    tag = "f%d" % n_fresh[0]
+                    n_fresh[0] += 1
+                    o.__dict__["_verif_tag"] = tag
+                    weak.append(weakref.ref(o))
+                    if hold_fresh:
+                        strong_fresh.append(o)
+                elif tag[0] == "n" and int(tag[1:]) in named:
+                    return tag + "!copy"    # carries a held accountant's tag but is another object
+                return tag
+            return "?" + type(o).__name__
 
         def obj(i):
-            return named[int(i[1:])] if i[0] == "n" else fresh[int(i[1:])]
+            if i[0] == "n":
+                return named[int(i[1:])]
+            for w in weak:
+                o = w()
+                if o is not None and o.__dict__.get("_verif_tag") == i:
+                    return o
+            raise LookupError("the program names %s, which no longer exists" % i)
+
+        def make_anon(i):
+            o = classes[kinds[int(i[1:])]]()
+            o.__dict__["_verif_tag"] = i
+            weak.append(weakref.ref(o))
+            return o
+
+        def is_anon(i):
+            return i[0] == "n" and int(i[1:]) in anon
+
+        def do_call(it):
+            """one library call; every reference taken here dies when this function returns"""
+            n_call[0] += 1
+            eps = 0.001 * n_call[0]
+            known = list(named.values()) + [o for o in (w() for w in weak) if o is not None]
+            before = [len(a.spent_budget) for a in known]
+            TOOLS[it[2]][1](eps, obj(it[1]) if it[1] else None)
+            ident(BA._default)                      # registers a default created by this call
+            moved = []
+
+            def amount_ok(new):
+                # one spend of eps, or (multi-cell results) several spends that add up to eps; never any delta
+                return all(d == 0 for _, d in new) and abs(sum(e for e, _ in new) - eps) <= 1e-9 * eps
+            for a, b in zip(known, before):
+                sb = a.spent_budget
+                if len(sb) != b:
+                    moved.append(ident(a) + ("" if amount_ok(sb[b:]) else "!amount"))
+            seen = {id(a) for a in known}
+            for w in list(weak):
+                a = w()
+                if a is not None and id(a) not in seen and len(a.spent_budget):
+                    moved.append(ident(a) + ("" if amount_ok(a.spent_budget) else "!amount"))
+            return "c:" + ("+".join(moved) if moved else "nobody")
 
         def go(its):
             for it in its:
                 k = it[0]
                 if k == "set":
-                    obj(it[1]).set_default()
+                    if is_anon(it[1]):
+                        make_anon(it[1]).set_default()          # `Cls().set_default()`: nobody keeps the object
+                    else:
+                        obj(it[1]).set_default()
                 elif k == "pop":
                     ev.append("p:" + ident(BA.pop_default()))
+                elif k == "gc":
+                    gc.collect()
                 elif k == "call":
-                    n_call[0] += 1
-                    eps = 0.001 * n_call[0]
-                    known = named + fresh
-                    before = [len(a.spent_budget) for a in known]
-                    TOOLS[it[2]][1](eps, obj(it[1]) if it[1] else None)
-                    ident(BA._default)                      # registers a default created by this call
-                    moved = []
-
-                    def amount_ok(new):
-                        # one spend of eps, or (multi-cell results) several spends that add up to eps; never any delta
-                        return all(d == 0 for _, d in new) and abs(sum(e for e, _ in new) - eps) <= 1e-9 * eps
-                    for a, b in zip(known, before):
-                        sb = a.spent_budget
-                        if len(sb) != b:
-                            moved.append(ident(a) + ("" if amount_ok(sb[b:]) else "!amount"))
-                    for a in fresh[len(known) - len(named):]:
-                        sb = a.spent_budget
-                        if len(sb):
-                            moved.append(ident(a) + ("" if amount_ok(sb) else "!amount"))
-                    ev.append("c:" + ("+".join(moved) if moved else "nobody"))
+                    ev.append(do_call(it))
                 elif k == "load":
                     ev.append("l:" + ident(BA.load_default(obj(it[1]) if it[1] else None)))
                 elif k == "peek":
@@ -320,10 +377,9 @@ def run_real(items, kinds):
                 elif k == "raise":
                     raise Boom()
                 elif k == "block":
-                    cm = obj(it[1])
                     entered = [False]
                     try:
-                        with cm:
+                        with (make_anon(it[1]) if is_anon(it[1]) else obj(it[1])):      # `with Cls():` when anonymous
                             entered[0] = True
                             ev.append("e:" + ident(BA._default))
                             go(it[2])
@@ -420,9 +476,21 @@ def gen_program(r, max_depth, thorough):
     budget = [r.randint(6, 36)]
     sim = {"stack": [None], "fresh": 0}
     stats = {"depth": 0, "rewrite_in_block": False, "implicit": False, "raise": False, "fresh_entered": False}
+    # lifetime: accountants nobody but the library references
+    anon = r.sample(range(n_named), r.randint(1, 2)) if r.chance(0.5) else []
+    hold_fresh = r.chance(0.5)
+    anon_unused = ["n%d" % i for i in anon]          # an anonymous accountant can be named once: where it is created
+    p_gc = r.choice([0.0, 0.06, 0.15]) if (anon or not hold_fresh) else 0.02
 
     def ids():
-        return ["n%d" % i for i in range(n_named)] + ["f%d" % i for i in range(sim["fresh"])]
+        """accountants the program holds in a variable"""
+        return ["n%d" % i for i in range(n_named) if i not in anon] + \
+               (["f%d" % i for i in range(sim["fresh"])] if hold_fresh else [])
+
+    def take_anon(p):
+        if anon_unused and r.chance(p):
+            return anon_unused.pop(r.randint(0, len(anon_unused) - 1))
+        return None
 
     def resolve():
         if sim["stack"][-1] is None:
@@ -438,11 +506,13 @@ def gen_program(r, max_depth, thorough):
             if budget[0] <= 0 and j != force_at:
                 break
             budget[0] -= 1
+            if r.chance(p_gc):
+                items.append(["gc"])
             u = r.u01()
             can_block = depth < target and len([i for i in ids() if i not in open_ids]) > 0
             if can_block and (u < p_block or j == force_at):
                 cand = [i for i in ids() if i not in open_ids]
-                a = r.choice(cand)
+                a = take_anon(0.2) or r.choice(cand)
                 if a[0] == "f":
                     stats["fresh_entered"] = True
                 sim["stack"].append(a)
@@ -470,7 +540,7 @@ def gen_program(r, max_depth, thorough):
                     resolve()
                     items.append(["load", None])
             elif u < 0.66:
-                sim["stack"][-1] = r.choice(ids())
+                sim["stack"][-1] = take_anon(0.45) or r.choice(ids())
                 items.append(["set", sim["stack"][-1]])
                 stats["rewrite_in_block"] |= depth > 0
             elif u < 0.78:
@@ -490,7 +560,9 @@ def gen_program(r, max_depth, thorough):
 
     items, _ = gen_list(0, [])
     stats["subclass"] = any(kinds)
-    return kinds, items, stats
+    used_anon = [i for i in anon if "n%d" % i not in anon_unused]
+    stats["lifetime"] = bool(used_anon) or (not hold_fresh and sim["fresh"] > 0)
+    return {"kinds": kinds, "anon": used_anon, "hold_fresh": hold_fresh}, items, stats
 
 
 FIXED = [
@@ -540,12 +612,18 @@ def direct(n_named, items):
 def report(ctx, n_named, items, shrunk_from=None):
     inst, (ev_r, flag_r, fin_r), (ev_o, flag_o, fin_o), bad = direct(n_named, items)
     sig, what, idx = bad
-    kinds = _kinds(n_named)
+    spec = _spec(n_named)
     kind_names = ["BudgetAccountant", "subclass", "sub-subclass", "subclass overriding spend"]
     calls = _calls_of(items)
-    ctx.violation(sig, f"{what}; program `{encode(inst)}`; accountants n0.. are {[kind_names[k] for k in kinds]}"
+    life = ""
+    if spec["anon"] or not spec["hold_fresh"]:
+        life = ("; referenced by the library only (created inline, never stored): "
+                + (", ".join("n%d" % i for i in spec["anon"]) or "none of the named ones")
+                + ("" if spec["hold_fresh"] else " and every lazily created default f<k>") + "; G = gc.collect()")
+    ctx.violation(sig, f"{what}; program `{encode(inst, show_gc=True)}`; accountants n0.. are "
+                       f"{[kind_names[k] for k in spec['kinds']]}{life}"
                        + (f"; library calls in order: {calls}" if calls else ""),
-                  {"n_named": kinds, "items": items, "program": encode(inst), "calls": calls, "event_index": idx,
+                  {"n_named": spec, "items": items, "program": encode(inst, show_gc=True), "calls": calls, "event_index": idx,
                    "expected": ev_o[max(0, idx - 3):idx + 2], "observed": ev_r[max(0, idx - 3):idx + 2],
                    "expected_flag": flag_o, "observed_flag": flag_r, "expected_final": fin_o, "observed_final": fin_r,
                    "shrunk_from": shrunk_from})
@@ -579,6 +657,18 @@ def sweep_programs():
                               ["block", "n0", [["block", "n2", [["pop"]]], ["call", None, 0]]], ["call", None, 0]]))
             progs.append((k, [["block", "n1", [["try", [["block", "n0", [["raise"]]]]], ["call", None, 0],
                                                ["block", "n2", [["raise"]]]]]]))
+    # lifetime: the displaced default is referenced by nobody but the library (anonymous set_default; the implicit
+    # default of an un-accounted call; `with Cls():`), garbage collection inside and after the blocks
+    for kind in range(N_KINDS):
+        k = [kind, (kind + 1) % N_KINDS, kind]
+        an = {"kinds": k, "anon": [2], "hold_fresh": False}
+        progs.append((an, [["set", "n2"], ["gc"], ["block", "n0", [["gc"], ["call", None, 0]]], ["gc"], ["call", None, 0]]))
+        progs.append((an, [["call", None, 0], ["block", "n0", [["gc"], ["call", None, 0]]], ["gc"], ["call", None, 0]]))
+        progs.append((an, [["set", "n2"], ["try", [["block", "n0", [["block", "n1", [["gc"], ["raise"]]]]]]], ["gc"],
+                           ["call", None, 0]]))
+        progs.append((an, [["call", None, 0], ["block", "n0", [["pop"], ["call", None, 0], ["block", "n1", [["gc"]]],
+                                                               ["call", None, 0]]], ["gc"], ["call", None, 0]]))
+        progs.append((an, [["set", "n1"], ["block", "n2", [["gc"], ["call", None, 0]]], ["gc"], ["call", None, 0]]))
     return progs
 
 
@@ -641,6 +731,17 @@ WITNESSES = {"C16:explicit-call-rewrites-default:RandomForestClassifier": _witne
 
 
 def check(ctx):
+    # the programs call gc.collect(): park everything that exists now (numpy, sklearn, the library) in the permanent
+    # generation, so that a collection only looks at what the programs themselves allocate
+    gc.collect()
+    gc.freeze()
+    try:
+        _check(ctx)
+    finally:
+        gc.unfreeze()
+
+
+def _check(ctx):
     r = ctx.fork("programs")
     thorough = ctx.tier == "thorough"
     max_depth = 8 if thorough else 4
@@ -670,6 +771,8 @@ def check(ctx):
                 ctx.count("programs_entering_lazy_default")
             if stats["subclass"]:
                 ctx.count("programs_with_subclass_accountants")
+            if stats["lifetime"]:
+                ctx.count("programs_with_accountants_only_the_library_references")
     # report failures: one shrunk representative per signature first (the runner prints the first), then the rest
     seen = set()
     for sig, n_named, items in fails:
